@@ -627,11 +627,17 @@ func drawLeaf(t *rapid.T, forArray bool) (*j5sgen.Type, []cand) {
 			e.Options = append(e.Options, &j5sgen.EnumOption{Name: o})
 		}
 		ty.InlineEnum = e
+		// the zero option may be written out, and then be named by the rules too
+		pool := enumOptions
+		if rapid.Bool().Draw(t, "explicitzero") {
+			e.ExplicitZero = &j5sgen.EnumOption{Name: "UNSPECIFIED"}
+			pool = append([]string{"UNSPECIFIED"}, enumOptions...)
+		}
 		switch rapid.IntRange(0, 2).Draw(t, "enumrule") {
 		case 0:
-			ty.Rules = &j5sgen.Rules{In: rapid.SliceOfNDistinct(rapid.SampledFrom(enumOptions), 1, 2, func(s string) string { return s }).Draw(t, "in")}
+			ty.Rules = &j5sgen.Rules{In: rapid.SliceOfNDistinct(rapid.SampledFrom(pool), 1, 2, func(s string) string { return s }).Draw(t, "in")}
 		case 1:
-			ty.Rules = &j5sgen.Rules{NotIn: rapid.SliceOfNDistinct(rapid.SampledFrom(enumOptions), 1, 2, func(s string) string { return s }).Draw(t, "notin")}
+			ty.Rules = &j5sgen.Rules{NotIn: rapid.SliceOfNDistinct(rapid.SampledFrom(pool), 1, 2, func(s string) string { return s }).Draw(t, "notin")}
 		}
 		for n := int32(0); n <= 5; n++ {
 			cs = append(cs, cand{Enum: ep(n)})
